@@ -1,0 +1,13 @@
+// +build verif
+
+package waiter
+
+import (
+	"sync"
+
+	"github.com/brewlin/net-protocol/pkg/verifhook"
+)
+
+func verifYield(site string) { verifhook.Do(site) }
+
+func verifLock(l *sync.RWMutex, write bool, site string) { verifhook.Lock(l, write, site) }
